@@ -18,7 +18,9 @@ from jax2onnx.plugins.plugin_system import PrimitiveLeafPlugin, register_primiti
 from jax2onnx.plugins._patching import AssignSpec, MonkeyPatchSpec
 from jax2onnx.plugins._post_check_onnx_graph import expect_graph
 from jax2onnx.plugins.jax.nn._builder_utils import (
+    lower_scaled_exp_linear_in_double,
     lower_unary_elementwise,
+    needs_double_parameters,
 )
 
 
@@ -118,6 +120,16 @@ class LeakyReluPlugin(PrimitiveLeafPlugin):
     # ---------- lowering (IR) ----------
     def lower(self, ctx: LoweringContextProtocol, eqn: JaxprEqn) -> None:
         negative_slope = float(eqn.params.get("negative_slope", 0.01))
+        if needs_double_parameters(ctx, eqn, negative_slope):
+            lower_scaled_exp_linear_in_double(
+                ctx,
+                eqn,
+                kind="leaky_relu",
+                alpha=negative_slope,
+                input_hint="leaky_relu_in",
+                output_hint="leaky_relu_out",
+            )
+            return
         lower_unary_elementwise(
             ctx,
             eqn,
